@@ -23,8 +23,9 @@ PROPS = {
                "closure.depth2", "closure.depth3", "closure.arity3", "closure.in_loop", "closure.in_submodule",
                "closure.returned", "closure.in_array", "closure.writes_captured", "closure.loop_idiom",
                "closure.siblings", "table.alias", "std.callback", "std.key_function", "native.call1",
-               "value.native_function", "call.via_import", "reals", "while", "for_each", "array"],
-        rule="random WELL-SCOPED programs (RefScope.well_scoped, re-checked per case in Coq) from a kind- and "
+               "value.native_function", "call.via_import", "reals", "while", "for_each", "array",
+               "corpus.R-1b", "corpus.R-2a", "corpus.R-2b", "corpus.R-3", "corpus.R-4", "corpus.R-5"],
+        rule="the six witness programs of findings/C01 first, then random WELL-SCOPED programs (RefScope.well_scoped, re-checked per case in Coq) from a kind- and "
              "rank-directed generator: 1-5 functions plus leaf functions of arity 0-3 spread over up to four "
              "(sub)modules with function / module / super imports, 2-24 globals, locals, if / else, while, repeat "
              "and for-each nested to depth 2, early return from loops, function values and closures (nested <= 3, "
@@ -60,6 +61,10 @@ PROPS = {
             "printed as a cut mark on both sides",
             "a key function of std.min / max / sorted(_by_key) that changes the key set of the table being "
             "processed is outside the domain of the semantics (code 10, known_findings.json)",
+            "disagreements are LABELLED, not accepted, when the program or run falls in a known class: code 11 "
+            "RefScope.leaky (static over-approximation of R-2), 12 a Get past the end met a nil key (R-3), 13 "
+            "RefScope.shadowing (R-4), 14 the reference run ended with VarNotFound of a never-assigned global "
+            "(R-5); another defect showing only inside such a program would be reported under that label",
             "the simulation theorem compile_correct against the compiler and VM models is not proved yet; its "
             "statement is in Properties/C01.v",
         ],
